@@ -26,6 +26,7 @@ func c06Ops(s []int) []ref.Op {
 }
 
 func checkC06(c *core.Ctx) {
+	defer specialC06(c)
 	defer scalarArgC06(c)
 	defer sweepC06(c)
 	defer sidefxCases(c, "Slice", "Patch", "Concat", "Reshape", "Flatten", "UnSqueeze", "Squeeze")
